@@ -109,7 +109,10 @@ class SerializedFileBufferedCollection(FileBufferedCollection):
                     # multiple collections pointing to the same file, etc).
                     return
                 else:
-                    blob = self._encode(self._data)
+                    # The buffer entry -- not this instance's own data, which is
+                    # stale if another instance bound to the same file wrote last or
+                    # this instance only read -- holds the current content.
+                    blob = cached_data["contents"]
 
                     # If the contents have not been changed since the initial read,
                     # we don't need to rewrite it.
